@@ -31,16 +31,27 @@ claim('C17', 'Verus contract on the INPUT prompt handler (prompt + "? ", caps fl
 claim('C18', 'Verus contracts on Stack<T> (exact length effects, 65535 limit => OUT OF MEMORY), Var pool limit, handler stack deltas',
       V + ': every Stack op has its exact effect on the abstract sequence, the size limit turns into OUT OF MEMORY, the variable pool is limited and frees defaults, ON...GOSUB without a branch leaves nothing. Statements whose code generation is not under contract are not decided.',
       'DESIGN.md §7 C18')
+claim('C02', 'Kani function contracts over all 2^32 Integer operand pairs / all float bit patterns + Verus contracts on operator wrappers, precedence tables and typed store',
+      'Kani (CBMC) proofs of kani::ensures contracts spliced onto the real Operation / Function / TryFrom functions: every Integer x Integer arm exact or OVERFLOW, relationals exactly 0 / -1, bitwise tables, float-to-integer conversions (floor, range) for every bit pattern, INT / FIX / SGN / CSNG / CDBL / ABS / unary minus for all three numeric types. ' + V + ': logical operators, \\ and MOD for every operand type through the conversion contract, relational wrappers, the 13-level precedence tables against the manual, operator-to-AST mapping, assignment conversion (Var::store). Not decided: float + - * / values, String x String arms, the recursive precedence-climbing loop itself.',
+      'DESIGN.md §7 C02')
+claim('C03', 'Verus built-in obligations (overflow, bounds, unwrap, callee preconditions, termination measures) of every function under contract',
+      V + ': every lexer scanner loop terminates and consumes at least one character (the 1EE hang fails exactly this obligation), Stack / Var / Link / Listing / VM handlers under contract cannot panic, listing edits survive live snapshots (Arc::make_mut), interrupt always reaches the Interrupt state. Only for the functions listed in evidence.coverage.functions_under_contract.',
+      'DESIGN.md §7 C03')
+claim('C08', 'Kani function contracts, all 2^32 Integer operand pairs symbolically, loop-free or fully unwound (complete, not bounded)',
+      'Kani (CBMC) proofs of kani::ensures contracts on the real functions: + - * ^ on Integers, unary minus, ABS, and Single/Double to Integer conversion return the exact result in range or OVERFLOW for every input; Verus proves the DIVISION BY ZERO / OVERFLOW / MOD -1 case split of \\ and MOD for every operand type. The exact quotient and remainder for all pairs (CBMC needs minutes) are in the thorough tier.',
+      'DESIGN.md §7 C08',
+      'Trusted: Kani/CBMC tool chain, Kani models of std (checked_*, floor, casts) on its own nightly std; CBMC NaN instrumentation disabled.')
+claim('C11', 'Verus contracts on TAB / SPC / POS (14-column zone arithmetic) and the prompt column reset',
+      V + ': TAB(t) pads to column t or not at all, the comma form (negative t) advances to the next multiple of |t| by 1..|t| spaces, SPC(n) is n spaces, POS is the cursor column, |t|, n > 255 is OVERFLOW. Not decided: number formatting, print-list desugaring, the column bookkeeping loop of PRINT.',
+      'DESIGN.md §7 C11')
+claim('C20', 'Verus contracts on symbol allocation and symbolic branch emission in the linker, and on direct-line entry',
+      V + ': every branch is emitted against a symbol (the line number itself for GOTO / GOSUB / RESTORE / RUN, a fresh negative symbol for local labels), symbols record (code, data) positions, local symbols are fresh, a direct line is compiled after the program without touching it. The re-basing loop of Link::append and the resolution loop of Link::link iterate std maps by value and are assumed, not proved.',
+      'DESIGN.md §7 C20')
 na('C05', 'Relates lex, Display for Token/Line and lex again; Display output reached through to_string() is an uninterpreted string in Verus and Kani does not finish on 2-character strings (measured): no contract within reach can state it over the real code. See DESIGN.md §7 C05.')
 for _p, _r in [
-    ('C02', 'checks under construction (Kani integer contracts + Verus operator wrappers); not yet registered'),
-    ('C03', 'checks under construction (termination / panic-freedom of the functions under contract); not yet registered'),
-    ('C07', 'string function unit not built yet'),
-    ('C08', 'Kani integer contracts not yet registered'),
-    ('C11', 'PRINT layout unit not built yet'),
-    ('C14', 'RENUM unit not built yet'),
-    ('C16', 'lexer unit not built yet'),
-    ('C19', 'linker diagnostics unit not built yet'),
-    ('C20', 'linker layout unit not built yet'),
+    ('C07', 'only LEN and SPC are under contract so far; LEFT$/RIGHT$/MID$ need the UTF-8 slicing model of vstd (no source available here), INSTR uses closure adapters: not claimed'),
+    ('C14', 'only the RENUM guards (ILLEGAL DIRECT, compile errors, dirty flag) are under contract; the change-map loop and the textual splice are not: not claimed'),
+    ('C16', 'the lexer unit proves termination and panic-freedom only; case-insensitivity of the scanners is a relational property that needs a spec of the literal grammar (not built): not claimed'),
+    ('C19', 'the link-time diagnostics are produced inside Link::link / link_whiles, which iterate std maps by value (no Verus iterator specification): only the recording of columns at emission is under contract: not claimed'),
 ]:
     na(_p, _r)
